@@ -188,14 +188,14 @@ class _RatNorm:
     def nd(self, e):
         k = e.get_id()
         if k not in self.memo:
-            self.memo[k] = self._nd(e)
-        return self.memo[k]
+            self.memo[k] = (e, self._nd(e))       # keeps the key term alive (ids of dead terms are reused)
+        return self.memo[k][1]
 
     def is_affine_sum(self, e):
         """ADD node whose summands are atoms or numeral multiples of atoms"""
         k = e.get_id()
         if k in self._aff:
-            return self._aff[k]
+            return self._aff[k][1]
         ok = e.decl().kind() in (z3.Z3_OP_ADD, z3.Z3_OP_SUB)
         if ok:
             for c in e.children():
@@ -212,13 +212,14 @@ class _RatNorm:
                 if ck in (z3.Z3_OP_ADD, z3.Z3_OP_SUB, z3.Z3_OP_DIV, z3.Z3_OP_UMINUS):
                     ok = False
                     break
-        self._aff[k] = ok
+        self._aff[k] = (e, ok)
         return ok
 
     def factor(self, c):
         """normal form of a factor of a product / operand of a quotient"""
         if self.atomize_affine and self.is_affine_sum(c):
             from fractions import Fraction
+            self.memo.setdefault(("atom", c.get_id()), (c, None))
             return {(c.get_id(),): Fraction(1)}, {(): Fraction(1)}
         return self.nd(c)
 
@@ -254,6 +255,7 @@ class _RatNorm:
             n1, d1 = self.factor(ch[0])
             n2, d2 = self.factor(ch[1])
             return _pmul(n1, d2), _pmul(d1, n2)
+        self.memo.setdefault(("atom", e.get_id()), (e, None))
         return {(e.get_id(),): Fraction(1)}, one
 
 
@@ -311,21 +313,22 @@ class _Abstractor:
     result is a *weakening*: `unsat` of the abstraction implies `unsat` of the original."""
 
     def __init__(self):
+        # z3 term ids are only unique among *live* terms: every key term is kept alive next to its entry
         self.memo = {}
         self.vars = {}
 
     def var(self, e):
         k = e.get_id()
         if k not in self.vars:
-            self.vars[k] = z3.Real("nl!%d" % len(self.vars))
-        return self.vars[k]
+            self.vars[k] = (e, z3.Real("nl!%d" % len(self.vars)))
+        return self.vars[k][1]
 
     def ab(self, e):
         k = e.get_id()
         if k in self.memo:
-            return self.memo[k]
+            return self.memo[k][1]
         r = self._ab(e)
-        self.memo[k] = r
+        self.memo[k] = (e, r)
         return r
 
     def _ab(self, e):
@@ -418,10 +421,10 @@ def canon_abs(t):
     def rec(e):
         k = e.get_id()
         if k in memo:
-            return memo[k]
+            return memo[k][1]
         ch = e.children()
         if not ch:
-            memo[k] = e
+            memo[k] = (e, e)
             return e
         nch = [rec(c) for c in ch]
         r = e.decl()(*nch) if any(a.get_id() != b.get_id() for a, b in zip(ch, nch)) else e
@@ -438,7 +441,7 @@ def canon_abs(t):
                         r = absc if kind > 0 else -absc
             except z3.Z3Exception:
                 pass
-        memo[k] = r
+        memo[k] = (e, r)
         return r
     return rec(t)
 
@@ -446,8 +449,8 @@ def canon_abs(t):
 def _abs_kind(c, a):
     """+1 if (c <=> a >= 0 or a > 0, i.e. the If is |a|), -1 if it is -|a|, else None"""
     key = (c.get_id(), a.get_id())
-    if key in _ABS_MEMO:
-        return _ABS_MEMO[key]
+    if key in _ABS_MEMO and _ABS_MEMO[key][0].eq(c) and _ABS_MEMO[key][1].eq(a):
+        return _ABS_MEMO[key][2]
     ab = _Abstractor()
     v = z3.Real("abs!probe")
     # treat `a` as an opaque variable: c must be a comparison of a (or -a) with 0
@@ -471,7 +474,9 @@ def _abs_kind(c, a):
         if str(s2.check()) == 'unsat':
             res = -1
             break
-    _ABS_MEMO[key] = res
+    if len(_ABS_MEMO) > 5000:
+        _ABS_MEMO.clear()
+    _ABS_MEMO[key] = (c, a, res)
     return res
 
 
@@ -514,7 +519,7 @@ def resolve_ites(hyps, goal):
     _, ab, s, decided = ent
     subs = []
     for cid, c in conds.items():
-        if cid not in decided:
+        if cid not in decided or not decided[cid][0].eq(c):
             v = None
             try:
                 ca = ab.ab(z3.simplify(c))
@@ -531,9 +536,9 @@ def resolve_ites(hyps, goal):
                     s.pop()
             except z3.Z3Exception:
                 v = None
-            decided[cid] = v
-        if decided[cid] is not None:
-            subs.append((c, z3.BoolVal(decided[cid])))
+            decided[cid] = (c, v)
+        if decided[cid][1] is not None:
+            subs.append((c, z3.BoolVal(decided[cid][1])))
     if not subs:
         return goal
     return z3.simplify(z3.substitute(goal, *subs))
